@@ -1,5 +1,6 @@
 import AC.Drv.Proto
 import AC.OptX
+import AC.Gen.ProgramFns
 /-! driver handler for C10: `c10 <chain> <impl: err|chain> <unchanged>` -/
 namespace AC.Drv
 open P
@@ -17,6 +18,12 @@ def handleC10 (f : List String) : Res :=
       let r : Res := {}
       let m := P.OptX.optimize c
       let r := cmp "optimize" (showInts m) impl r
+      -- `opt.Optimize` as TRANSLATED from opt.go (list based, hence only on chains of moderate length):
+      -- validates the translator (nested loops, `continue`, in-place filtering) against the code
+      let r := if c.length ≤ 20 then
+          cmp "translated-optimize" (match AC.Gen.Program.optOptimize c with
+            | some (o, none) => showInts o | some (_, some _) => "err" | none => "panic") impl r
+        else r
       let valid := isChainB c
       if !valid then { r with tag := "invalid-input" } else
       match pInts impl with
